@@ -290,9 +290,8 @@ Conversion<Unit::DynamicViscosity, Unit::DynamicViscosity::PoundSecondPerSquareI
 }
 
 template <typename NumericType>
-inline const std::
-    map<Unit::DynamicViscosity, std::function<void(NumericType* values, const std::size_t size)>>
-        MapOfConversionsFromStandard<Unit::DynamicViscosity, NumericType>{
+inline const ConversionTable<Unit::DynamicViscosity, NumericType>
+    MapOfConversionsFromStandard<Unit::DynamicViscosity, NumericType>{
           {Unit::DynamicViscosity::PascalSecond,
            Conversions<Unit::DynamicViscosity, Unit::DynamicViscosity::PascalSecond>::
                FromStandard<NumericType>},
@@ -317,8 +316,7 @@ inline const std::
 };
 
 template <typename NumericType>
-inline const std::map<Unit::DynamicViscosity,
-                      std::function<void(NumericType* const values, const std::size_t size)>>
+inline const ConversionTable<Unit::DynamicViscosity, NumericType>
     MapOfConversionsToStandard<Unit::DynamicViscosity, NumericType>{
       {Unit::DynamicViscosity::PascalSecond,
        Conversions<Unit::DynamicViscosity, Unit::DynamicViscosity::PascalSecond>::
